@@ -23,7 +23,7 @@ def own_case(inp):
         mode = "rendered"
     want = {"r": chem.unmapped(r), "p": chem.unmapped(p)}
     substrate = reactlib.unmapped_side(p if inp["invert"] else r)
-    got, raw = [], []
+    got, raw, pm = [], [], {}
     try:
         R = reactlib.make_reactor(substrate, tpl, invert=inp["invert"], strategy=inp["strategy"], mode=mode)
         got = reactlib.reaction_keys(R.smarts_list)
@@ -31,10 +31,12 @@ def own_case(inp):
             # diagnosis only: would the reaction be regenerated if the rule were applied at every raw match?
             R2, _ = reactlib.raw_reactor(R, substrate, tpl, invert=inp["invert"], strategy=inp["strategy"], mode=mode)
             raw = reactlib.reaction_keys(R2.smarts_list)
+            if any(g == want for g in raw):
+                pm = reactlib.prune_model(R, substrate, tpl, invert=inp["invert"], strategy=inp["strategy"], mode=mode, keyfn=reactlib.reaction_keys) or {}
     except Exception as e:
         err = type(e).__name__
     what = "%s,%s,%s,%s" % ("backward" if inp["invert"] else "forward", "centre" if inp["centre"] else "full-its", inp["strategy"], mode)
-    return {"G": a[0], "H": b[0], "mode": mode, "want": want, "got": got, "raw": raw, "what": what, "full": not inp["centre"]}
+    return {"G": a[0], "H": b[0], "mode": mode, "want": want, "got": got, "raw": raw, "model": pm, "what": what, "full": not inp["centre"]}
 
 
 class S(core.Stage):
